@@ -94,6 +94,7 @@ def run(prog: Program, L: Ledger) -> None:
     L.rule("T3", "kwargs of the file-path dictionary cover all constructor parameters without default and contain no key the constructor chain rejects")
     L.rule("T4", "every context slot is emitted, a handle, per-trial scratch (assigned in reset) or recomputed by validate_simulation; from_dict restores rng state in place after construction, attributes, context, move table")
     L.rule("T6", "the restart writer keeps dictionary insertion order (no key sorting by default): the move table is rebuilt in file order and scheduled by position")
+    L.rule("T7", "per-move state that is not in the file but derived on load (unique_labels, recomputed by set_labels) is only ever produced by that same function during a run")
     L.rule("T5", "every class name reachable from a driver's dictionary is registered and admitted by the lookup base at its reading site")
     L.assume(asetab.validate_json_todict())
 
@@ -136,6 +137,12 @@ def run(prog: Program, L: Ledger) -> None:
     L.check(not sorted_by_default, "T6", "RestartObserver:key-order", call.where,
             "the restart writer sorts dictionary keys by default: the move table is written alphabetically, from_dict re-inserts the moves in that order, and yield_moves maps its random draws to moves by position",
             "a table whose insertion order is not alphabetical (e.g. 'small' then 'large', or the default cell+displacement moves): the restarted run turns the same random numbers into different moves", "sort_keys")
+
+    # T7: the file carries `labels`; `unique_labels` (whose order decides which label a random draw picks) is rebuilt by
+    # set_labels on load — so set_labels must be its only producer while running
+    from . import c11
+
+    c11.check_label_writers(prog, L, "T7")
 
     # ------------------------------------------------------------------ T1
     stale = stale_aliases(prog)
